@@ -656,12 +656,20 @@ def make_nlopt_body(n, mask, log_opt, multinom, bpat, fp, aslist):
         cons = (lambda p, g: 0, Fr(1, 10 ** 6))
         with patched((NLopt_mod, 'nlopt', ns), (Inference, 'll', make_ll(env, rec, 'llp', data)),
                      (Inference, 'll_multinom', make_ll(env, rec, 'llm', data))):
+            lb_arg = None if lower is None else list(lower)
+            ub_arg = None if upper is None else list(upper)
+            fp_keep = None if fixed_params is None else list(fixed_params)
             popt, llopt = NLopt_mod.opt(list(p0) if aslist else _arr(env, p0), data, model, [40, 50],
-                                        multinom=multinom,
-                                        lower_bound=None if lower is None else list(lower),
-                                        upper_bound=None if upper is None else list(upper),
+                                        multinom=multinom, lower_bound=lb_arg, upper_bound=ub_arg,
                                         fixed_params=fixed_params, log_opt=log_opt, func_args=[3],
                                         ineq_constraints=[cons])
+        # the caller's bound / fixed-value lists are left exactly as they were (None entries stay None)
+        for nm_, got_, want_ in (('lower_bound', lb_arg, lower), ('upper_bound', ub_arg, upper),
+                                 ('fixed_params', fixed_params, fp_keep)):
+            env.holds("caller's %s list untouched" % nm_,
+                      (got_ is None and want_ is None) or
+                      (got_ is not None and want_ is not None and len(got_) == len(want_)
+                       and all(a_ is b_ for a_, b_ in zip(got_, want_))))
         if not ctx.opts or ctx.noptimize != 1:
             env.fail('optimiser not run exactly once')
             return
@@ -1147,6 +1155,17 @@ def units(tier, seed):
                                                      multinom=multinom, fixed_params_as=fp, p0_as_list=aslist),
                                          setup=_setup, min_obligations=12 + 4 * n, expect_paths=1, timeout_s=tmo,
                                          query_timeout_ms=120000))
+    if not thorough:
+        # one-sided / mixed None bounds with NO fixed_params (the bound lists reach the optimiser set-up unprojected)
+        for n, bpat, multinom in ((2, 'holes', True), (3, 'holes', False), (2, 'lower', False), (3, 'upper', True)):
+            mask = tuple([False] * n)
+            us.append(H.Unit('nlopt-n%d-%s-lin-%s-%s-nofixed' % (n, mask_name(mask), bpat,
+                                                                 'multinom' if multinom else 'poisson'),
+                             make_nlopt_body(n, mask, False, multinom, bpat, 'none', True),
+                             params=dict(n=n, mask=list(mask), log_opt=False, bounds=bpat, multinom=multinom,
+                                         fixed_params_as='none', p0_as_list=True),
+                             setup=_setup, min_obligations=12 + 4 * n, expect_paths=1, timeout_s=tmo,
+                             query_timeout_ms=120000))
     # (D)
     cnt = 0
     for wname, W in WRAPPERS.items():
